@@ -28,3 +28,13 @@ pub open spec fn mirrors(v: Seq<Extent>, k: Seq<KExt>, n: int) -> bool {
     &&& forall|i: int| 0 <= i < n ==> (#[trigger] v[i]).start == k[i].logical && v[i].end == kend(k[i])
             && v[i].shared == (k[i].flags & FIEMAP_EXTENT_SHARED != 0)
 }
+
+/// the extents map_extents returns are well-formed, ordered, disjoint and within off_t (proved from K-fiemap's shape)
+pub proof fn lemma_mirrors_wf(v: Seq<Extent>, k: Seq<KExt>)
+    requires kext_wf(k), mirrors(v, k, k.len() as int)
+    ensures ext_wf(v), ext_sorted(v), ends_le(v, i64::MAX as int)
+{
+    assert forall|i: int| 0 <= i < v.len() implies ext_wf1(#[trigger] v[i]) by { assert(k[i].length > 0); }
+    assert forall|i: int, j: int| 0 <= i < j < v.len() implies (#[trigger] v[i]).end <= (#[trigger] v[j]).start by { assert(kend(k[i]) <= k[j].logical); }
+    assert forall|i: int| 0 <= i < v.len() implies (#[trigger] v[i]).end <= i64::MAX as int by { assert(kend(k[i]) <= i64::MAX); }
+}
